@@ -865,8 +865,11 @@ def check(ctx, cases, outs):
             ctx.count("hyp:rows>=2-candidates" if two else "hyp:has-one-candidate-row")
             if not two and cases[k]["k"] == 0:
                 ctx.count("hyp:one-candidate-row-but-0-passes(covered by C01_lapjv_ref_fixed_correct_k0)")
-            two = two or cases[k]["k"] == 0          # from here on: "covered by an end-to-end theorem"
-            prem = (a == 1)
+            if not two and cases[k]["k"] > 0:
+                ctx.count("hyp:one-candidate-row,k>=1:" + ("no-pending-row-after-ARR(covered by C01_lapjv_ref_fixed_correct_nofree)"
+                                                            if a == 2 else "augment-runs(checker only)" if a == 1 else "premise-fails"))
+            two = two or cases[k]["k"] == 0 or a == 2          # from here on: "covered by an end-to-end theorem"
+            prem = (a in (1, 2))
             ctx.count("hyp:arr-returns(premise of C01_lapjv_ref_fixed_total_partial)" + (":holds" if prem else ":FAILS")
                       + ("" if two else "(one-candidate row)"))
             if res[k] is None and (two or not prem) and prem != (m is not None):
@@ -1058,7 +1061,7 @@ def shrink_candidates(case):
 
 MANIFEST = {
     "level_text": (
-        "Machine-checked proofs (Coq 8.16, 62 theorems, all closed under the global context) about (a) the certificate "
+        "Machine-checked proofs (Coq 8.16, 67 theorems, all closed under the global context) about (a) the certificate "
         "checker cert_ok that is run, extracted, on the implementation's own (x, y, u, v): acceptance implies x is a "
         "minimum-cost perfect matching over listed pairs, y its inverse and (u, v) a dual certificate, for every n and every "
         "sparsity pattern; (b) a line-level executable Gallina model of lapjv.py + _lapjv.pyx with switches rt in {AsIs, Fixed}, "
@@ -1079,7 +1082,11 @@ MANIFEST = {
         "rows included) the solver returns an optimal perfect matching with inverse permutations - no premise left "
         "(C01_lapjv_ref_fixed_correct_k0); with k >= 1 passes and >= 2 candidates per row the same under the single premise "
         "arr_returns_b that the eps-retry passes of augmenting row reduction return within the model's fuel "
-        "(C01_lapjv_ref_fixed_correct_partial, _grid_partial for the code's eps on coarser cost grids); (c) the tracker's read-back of the solver result "
+        "(C01_lapjv_ref_fixed_correct_partial, _grid_partial for the code's eps on coarser cost grids); for one-candidate rows "
+        "with k >= 1 the order invariant on the reserved (-inf priced) block is carried through augmenting row reduction "
+        "(C01_arr_passes_inv_ord), the block is forced in every perfect matching (C01_reserved_forced), a complete assignment "
+        "under InvE + Ord is optimal (C01_optimal_with_reserved), and the solver is correct end to end whenever phases 1-3 "
+        "leave no pending row (C01_lapjv_ref_fixed_correct_nofree); (c) the tracker's read-back of the solver result "
         "is injective for every permutation, and the identity clause holds at the level of the assignment problem."),
     "level_note": (
         "KNOWN FINDING F20 (inside the property's quantifier): memory safety of augment FAILS - `inf = np.sum(c) + 1` "
@@ -1092,12 +1099,15 @@ MANIFEST = {
         "the sentinel failed 1 810 times for the as-is model and never for the row-offset-repaired (Fixed) model (its only "
         "no-results, 186 in the last 300 000, are price wars that the true-infinity variant shares); whether inf = sum(c) + 1 is adequate once F1 "
         "is repaired is neither proved nor refuted. "
-        "Not proved (reference variant): arr_passes_total - that the eps-retry passes of augmenting row reduction return within "
-        "the model's fuel for epsr = 2^-26 (with eps 0 in the retry decision it is false for the model's fuel, "
-        "C01_lapjv_fixed_eps0_not_total); this premise (executable: Model.Lapjv.arr_returns_b, extracted entry_arr) is "
+        "REFUTED for the model (not the code): arr_passes_total - the model's fuel 4000 + 40 (n^2 + |tri|) for augmenting row "
+        "reduction does not scale with the cost range; C01_arr_fuel_not_total is a kernel-evaluated n = 4 integer-cost input with "
+        "a perfect matching whose price war takes ~10^4 retries (the real loop is unbounded, returns, and its answer is optimal). "
+        "Inputs whose price wars exceed the fuel are therefore outside the model correspondence (the generator excludes and counts "
+        "them; the verified checker still covers the code's answer on them only if generated - they are not). The premise (executable: Model.Lapjv.arr_returns_b, extracted entry_arr) is "
         "evaluated on every generated case and cross-checked against the theorems (premise <=> the reference model returns). "
         "For the sentinel variant additionally the adequacy of inf. "
-        "optimality for inputs with single-candidate rows AND k >= 1 passes (-inf prices): only the price-update core over InvE and the "
+        "Still open: inputs with single-candidate rows AND k >= 1 passes on which augment actually runs (the loop invariant K over InvE; reserved columns are non-edges for the Dijkstra loop). "
+        "optimality for inputs with single-candidate rows AND k >= 1 passes (-inf prices): the price-update core over InvE and the "
         "spec-level reserved-block lemma are proved. Both hypotheses are evaluated on every generated case by the check (the "
         "repaired model returns; rows with >= 2 candidates are theorem-covered, the others checker-only) and both clauses are "
         "covered per instance by the verified checker on every run. ASan stream of 3 000 has_PM instances (2 044 with a "
